@@ -438,3 +438,31 @@ prop("C15",
      assumptions=["parametricity of the code in user names"],
      unverified_surroundings=["loopy (make_reduction_inames_unique, "
                               "accumulator names)"])
+
+prop("C18",
+     level="proof",
+     level_text=(
+         "Deductive information-flow proof of the pytato-owned feeders of the "
+         "persistent key: for two arbitrary (symbolic) ndarrays, equal "
+         "streams fed to the hash imply equal contents, shape and dtype, and "
+         "the stream does not depend on memory layout or address; reduction "
+         "operations feed their (process-stable) type; no node dataclass "
+         "field other than non_equality_tags is excluded from the generic "
+         "field walk and no node class overrides it."),
+     level_note=(
+         "pytools' KeyBuilder (the generic dataclass field walk, hashing of "
+         "tuples/str/frozenset/dtype, stability across processes) is "
+         "external and assumed injective and process-stable on what it is "
+         "fed. The symbolic ndarray models the observations the feeder can "
+         "make (contents in C order, layout-dependent bytes, strides, shape, "
+         "dtype, address)."),
+     technique="contract-based deductive verification: information-flow "
+               "obligations over a symbolic ndarray, discharged by z3",
+     design_ref="DESIGN.md §6 C18",
+     explanation="see contracts/c18_keys.py",
+     structural_bound="pairs of arrays; all pairs of reduction operations; "
+                      "every node dataclass",
+     trusted_base=["pytools.persistent_dict.KeyBuilder"],
+     assumptions=["numpy: tobytes()/data.tobytes() in C order depend on the "
+                  "logical contents only"],
+     unverified_surroundings=["pytools KeyBuilder, loopy's LoopyKeyBuilder"])
